@@ -13,7 +13,7 @@ RULE = ("base histories = generated definitions (joins, splits, with-items, retr
         "lazy/eager schedules with pause/cancel requests, early output renders and a rerun of failed workflows; for each "
         "base history the restored twin is crashed at: every position, each single position (all of them for short "
         "histories, sampled beyond), and random subsets; after EVERY step the twins' poll answers and full serialize() "
-        "are compared, and every restore is checked to reproduce the persisted form exactly; non-trivial = twin run "
+        "are compared, and every restore is checked to reproduce the persisted form exactly; histories in which a failed workflow is rerun while other actions are still in flight; non-trivial = twin run "
         "with at least one crash point at which the staged list was non-empty; distinct = (definition, history, "
         "crash set) digest")
 ASSUMPTIONS = ASSUME_SIM
@@ -48,7 +48,17 @@ def make_base(job, case, m, seed):
     ctl = dict(req=0.06, max_req=3, early_render=job.get("early_render", 0.6))
     inj = workloads.Injector(h64(job.get("gseed", 0), seed, "inj"), ctl)
     pol = explore.Policy(pseed=h64(job.get("gseed", 0), seed, "p"), lazy_pct=[0, 50][seed % 2], render=True)
-    explore.run_free(run, pol, hook=inj)
+    state = dict(done=False)
+
+    def hook(r, phase):
+        inj(r, phase)
+        if job.get("rerun_inflight") and phase == "after_done" and not state["done"] and r.status() == "failed" and r.inflight:
+            # the failed workflow is rerun at once, while other actions are still in flight: their reports arrive after
+            # the rerun, at entries the rerun has staged again
+            state["done"] = True
+            r.rerun(None)
+
+    explore.run_free(run, pol, hook=hook)
     if run.status() == "failed" and not run.inflight and seed % 3 == 0:
         run.rerun(None)
         explore.run_free(run, pol, start=False)
@@ -178,6 +188,10 @@ def jobs(tier, seed):
     # (while other actions are still in flight) and again at the end
     js += batches("crash_twin", scale(tier, 80, 1500), scale(tier, 8, 40), gen="late", gseed=seed + 1, p_fail=0.05, early_render=1.0,
                   all_singles_upto=scale(tier, 14, 30), singles=scale(tier, 6, 16), subsets=scale(tier, 1, 4), name="late-output")
+    # failed workflows rerun while other actions are still in flight (late reports arrive at re-staged entries)
+    js += batches("crash_twin", scale(tier, 60, 1500), scale(tier, 6, 40), gen="dag", gseed=seed + 3, p_fail=0.35, rerun_inflight=True,
+                  P=dict(p_intjoin=0.5, p_intjoin_less=0.5, p_join=0.8, p_items=0.15, p_retry=0.1, nmax=5),
+                  all_singles_upto=scale(tier, 12, 30), singles=scale(tier, 6, 16), subsets=scale(tier, 1, 4), name="rerun-with-late-reports")
     # definitions whose input / vars / output fail to render: the conductor is failed by its own initialisation
     js += batches("crash_twin", 24, 24, gen="badinit", gseed=seed + 2, all_singles_upto=30, subsets=1, name="failing-init")
     return js
